@@ -96,3 +96,66 @@ def loc(span):
         return '?'
     parts = span.rsplit(':', 2)
     return '%s:%s' % (parts[0], parts[1]) if len(parts) == 3 else span
+
+
+# ---- drop glue -------------------------------------------------------------------------------------------------------
+def _split_top(s, sep=','):
+    out, depth, cur = [], 0, ''
+    for ch in s:
+        if ch in '<([':
+            depth += 1
+        elif ch in '>)]':
+            depth -= 1
+        if ch == sep and depth == 0:
+            out.append(cur)
+            cur = ''
+        else:
+            cur += ch
+    if cur.strip():
+        out.append(cur)
+    return [x.strip() for x in out]
+
+
+def owned_types(ty):
+    """nominal types (path, [type args]) a value of the printed type `ty` owns by value, i.e. whose destructor runs when
+    the value is dropped: references, raw pointers, PhantomData, ManuallyDrop, fn pointers and dyn objects own nothing
+    the crate can see"""
+    ty = ty.strip()
+    if not ty or ty[0] in '&*' or ty.startswith('fn(') or ty.startswith('dyn ') or ty.startswith('unsafe fn') or ty.startswith('extern '):
+        return []
+    if ty[0] == '(' and ty.endswith(')'):
+        return [x for part in _split_top(ty[1:-1]) for x in owned_types(part)]
+    if ty[0] == '[' and ty.endswith(']'):
+        return owned_types(_split_top(ty[1:-1], ';')[0])
+    lt = ty.find('<')
+    if ty.startswith('<'):          # qualified path / projection: opaque
+        return []
+    if lt < 0:
+        return [(ty, [])]
+    head, rest = ty[:lt], ty[lt + 1:ty.rfind('>')]
+    if head.endswith('PhantomData') or head.endswith('ManuallyDrop') or head.endswith('NonNull') or head.endswith('MaybeUninit'):
+        return []
+    args = [a for a in _split_top(rest) if a and not a.startswith("'")]
+    out = [(head, args)]
+    for a in args:
+        out += owned_types(a)
+    return out
+
+
+def drop_glue_bodies(db, ty, _seen=None):
+    """ids of the crate's Drop::drop bodies that run when a value of printed type `ty` is dropped (the type's own Drop impl,
+    then the glue of its fields, recursively through crate ADTs and through the type arguments of foreign generics)"""
+    seen = _seen if _seen is not None else set()
+    out = []
+    for head, args in owned_types(ty):
+        a = db.adt.get(head)
+        if a is None or head in seen:
+            continue
+        seen.add(head)
+        for b in db.raw['bodies']:
+            m = b.get('meta') or {}
+            if b['kind'] == 'assoc_fn' and m.get('impl_adt') == head and (m.get('impl_trait') or '').endswith('ops::drop::Drop'):
+                out.append(b['id'])
+        for f in a['fields']:
+            out += drop_glue_bodies(db, f['ty'], seen)
+    return out
